@@ -147,8 +147,18 @@ impl Part for Spellings {
         let faulted = labels.iter().any(|l| l.starts_with("fault:"));
         if !faulted && t.chance(1, 3) {
             // #[o2o(allow_unknown)] has no bare form; in valid inputs it changes nothing, wherever it sits in a list
-            let pos = t.below(item.attrs.len() + 1);
-            item.attrs.insert(pos, Attr::wrapped(vec![Instr::AllowUnknown]));
+            if t.coin() {
+                // allow_unknown first, and after it a bare attribute that is only tolerated because of it (a member instruction
+                // name on the type is then taken for somebody else's attribute): stays tolerated whatever spelling follows
+                item.attrs.insert(0, Attr::wrapped(vec![Instr::AllowUnknown]));
+                let foreign = *t.pick(&["parent(zz)", "literal(1)", "ghost(1)", "as_type(i32)", "type_hint(as ())"]);
+                let pos = 1 + t.below(item.attrs.len());
+                item.attrs.insert(pos, Attr::Foreign(foreign.to_string()));
+                labels.push("allow_unknown+tolerated-bare-attribute".into());
+            } else {
+                let pos = t.below(item.attrs.len() + 1);
+                item.attrs.insert(pos, Attr::wrapped(vec![Instr::AllowUnknown]));
+            }
             labels.push("allow_unknown".into());
         }
         let bare = respell(&item, Mode::AllBare);
